@@ -13,7 +13,7 @@ fn verif_top<'i>(tokens: Vec<LexToken<'i>>, tokens_raw: Vec<LexToken<'i>>, src: 
 {
     let mut p = @PARSER_LITERAL@;
     proof {
-        reveal(n_adv); reveal(depth); reveal(nested); reveal(rooted);
+        reveal(n_adv); reveal(depth); reveal(nested); reveal(rooted); reveal(errs_ok3);
         assert(p.events@.len() == 0);
         assert forall|j: int| 0 <= j <= p.events@.len() implies depth(#[trigger] p.events@.take(j)) >= 0 by {
             assert(p.events@.take(j) =~= p.events@);
